@@ -988,7 +988,12 @@ class Engine:
                              str(error))
 
         # Try to restart if context allows ...
-        if restartContext in [experiment.model.codes.restartContexts["RestartContextRestartPossible"],
+        if self._shutdown:
+            # VV: The engine was told that its component is in its final state while the restart was being prepared
+            #     (e.g. the stage was stopped during a slow restart hook): a new task would run without supervision
+            self.log.warning("Engine was shutdown while preparing to restart - will not restart")
+            restartCode = experiment.model.codes.restartCodes['RestartCouldNotInitiate']
+        elif restartContext in [experiment.model.codes.restartContexts["RestartContextRestartPossible"],
                               experiment.model.codes.restartContexts["RestartContextHookNotAvailable"]]:
             try:
                 #Reset ivars that determine isAlive (so the retval of isAlive is True)
